@@ -1,6 +1,7 @@
 package rules
 
 import (
+	"strings"
 	"fmt"
 	"golang.org/x/tools/go/ssa"
 
@@ -199,5 +200,80 @@ func checkYamuxKeepAlive(c *Ctx, res *report.Result, rule string) {
 	}
 	if n < 2 {
 		res.Undec(rule, "yamux session factories", "", fmt.Sprintf("%d yamux.Client / yamux.Server calls found, 2 confirmed by hand", n))
+	}
+}
+
+// checkStreamTranslatorForwards (O6.15): the stream wrapper that translates relayed messages never withholds one:
+// every path of streamTranslator.SendMsg / RecvMsg reaches the call of the underlying ServerStream's method (a
+// translator's error is logged, the message goes on as it is). A message that is not passed on ends the relay for
+// the initiator at that message - and at the same message again after every reconnect.
+func checkStreamTranslatorForwards(c *Ctx, res *report.Result, rule string) {
+	for _, name := range []string{"SendMsg", "RecvMsg"} {
+		f := resolve(c, res, rule, anchor{"interceptor", "*streamTranslator", name})
+		if f == nil {
+			continue
+		}
+		isUnder := func(x ssa.Instruction) bool {
+			call, ok := x.(ssa.CallInstruction)
+			return ok && call.Common().IsInvoke() && call.Common().Method.Name() == name
+		}
+		r := flow.FindPath(flow.Point{Block: f.Blocks[0]}, flow.IsReturn, isUnder, nil)
+		res.Check(!r.Found, rule, "streamTranslator."+name+" always reaches the underlying "+name, fnPos(c.Prog, f), "every path calls ServerStream."+name, "the wrapper can return without passing the message to the underlying stream (path "+flow.BlockPath(r.Via)+"): a message the translator cannot process is withheld, the relay's Send fails, the stream is torn down - and after the reconnect the source sends the same message again")
+	}
+}
+
+// checkNoStreamCap (O7.7): in LCM mode a peer keeps LCM(local, remote) replication streams open on one connection,
+// more than either cluster's own shard count. No gRPC server of the module may cap concurrent streams by a bound
+// that is not derived from the LCM: with grpc.MaxConcurrentStreams(max(local, remote) + k) the streams beyond the
+// cap are queued for ever and their LCM shards are never forwarded.
+func checkNoStreamCap(c *Ctx, res *report.Result, rule string) {
+	n := 0
+	for _, f := range c.Prog.RepoFuncs() {
+		if !isShippedFunc(f) {
+			continue
+		}
+		for _, call := range flow.Calls(f) {
+			if !flow.IsCallTo(call.Common(), "google.golang.org/grpc", "", "MaxConcurrentStreams") {
+				continue
+			}
+			n++
+			derived := false
+			seen := map[ssa.Value]bool{}
+			var walk func(v ssa.Value, d int)
+			walk = func(v ssa.Value, d int) {
+				if d > 8 || v == nil || seen[v] {
+					return
+				}
+				seen[v] = true
+				switch x := v.(type) {
+				case *ssa.Call:
+					if sc := flow.StaticCallee(&x.Call); sc != nil && sc.Name() == "LCM" {
+						derived = true
+					}
+					for _, a := range x.Call.Args {
+						walk(a, d+1)
+					}
+				case *ssa.BinOp:
+					walk(x.X, d+1)
+					walk(x.Y, d+1)
+				case *ssa.Convert:
+					walk(x.X, d+1)
+				case *ssa.Phi:
+					for _, e := range x.Edges {
+						walk(e, d+1)
+					}
+				case *ssa.UnOp:
+					if p, ok := flow.FieldPath(x); ok && strings.HasSuffix(p, ".LCM") {
+						derived = true
+					}
+					walk(x.X, d+1)
+				}
+			}
+			walk(call.Common().Args[0], 0)
+			res.Check(derived, rule, shortFn(f)+": concurrent streams are not capped below the LCM shard space", instrPos(c.Prog, call), "bound derived from the LCM", "grpc.MaxConcurrentStreams is set from a value that is not the LCM of the shard counts: in LCM mode a peer opens one stream per LCM shard on one connection, the streams beyond the cap never start and their shards are never forwarded")
+		}
+	}
+	if n == 0 {
+		res.Hold(rule, "no gRPC server of the module caps concurrent streams", "", "no grpc.MaxConcurrentStreams call in the shipped code")
 	}
 }
